@@ -398,7 +398,8 @@ def naming_tie(ctx, p, n_scopes):
         k = rng.randint(1, len(names) - 1)
         ports, locs = names[:k], names[k:]
         if i == 0: ports, locs = ['w_a', 'x'], ['a']
-        def build(ports=ports, locs=locs):
+        inames = [n for n in rng.sample(NAME_VOCAB, rng.randint(0, 3)) if not n.startswith('g') and n != 'last'] if i else ['x', 'i_x']
+        def build(ports=ports, locs=locs, inames=inames):
             def body(t, I, O):
                 prev = I[0]
                 ws = []
@@ -406,6 +407,11 @@ def naming_tie(ctx, p, n_scopes):
                     w = t.wire(n, 4); p.Not(t, 'g%d' % j, prev, w); prev = w; ws.append(w)
                 p.Not(t, 'last', prev, O[0])
                 t._c03_locals = ws
+                # instantiated (not inlined) children under adversarial names, and sometimes a register (=> implicit clock port)
+                t._c03_insts = []
+                for j, n in enumerate(inames):
+                    sink = t.wire('zz_s%d' % j, 4)
+                    t._c03_insts.append(p.Add(t, n, I[0], prev, sink) if j % 2 == 0 else p.Reg(t, n, prev, sink))
             return D.make_top(p, [(n, 4) for n in ports[:-1]] or [('zz_in', 4)], [(ports[-1], 4)], body)
         try:
             with quiet():
@@ -418,19 +424,31 @@ def naming_tie(ctx, p, n_scopes):
         R.clearWireNamesCache()
         real = [wn[q.wire] for q in list(top.inPorts) + list(top.outPorts)] + [wn[w] for w in top._c03_locals]
         kw = sorted({n for n in pnames + locs if R.isReservedVerilogKeyword(n)})
-        scopes.append((pnames, locs, kw, real))
         sl = lambda l: '[' + '; '.join(vparse.cq_str(x) for x in l) + ']'
-        items.append(('n%d' % len(items), 'emitted_names %s %s %s' % (sl(kw), sl(pnames), sl(locs))))
+        # the whole name space of the module (C03_names_injective): implicit clock + ports + locals + instance names, read from the generator's own functions
+        gen = R.VerilogGenerator(top)
+        insts = [c for c in top._c03_insts if not gen.isInlinable(c)]
+        clk = R.getClockPortName(top) if gen.anyClockableDescendant(top) else None
+        real_full = ([clk] if clk is not None else []) + real + [R.getInstanceName(c) for c in insts]
+        R.clearWireNamesCache()
+        scopes.append((pnames, locs, kw, real, [c.name for c in insts], clk, real_full))
+        items.append(('n%d' % (len(scopes) - 1), 'emitted_names %s %s %s' % (sl(kw), sl(pnames), sl(locs))))
+        items.append(('f%d' % (len(scopes) - 1), 'emitted_names_full %s %s %s %s %s' % (sl(kw), 'None' if clk is None else '(Some %s)' % vparse.cq_str(clk), sl(pnames), sl(locs), sl([c.name for c in insts]))))
         ctx.count(('naming', tuple(pnames), tuple(locs)))
     out = common.coq_eval('C03_naming', 'From V Require Import Model.VSyntax Model.Naming.\nOpen Scope string_scope.\n', items)
-    for j, (pnames, locs, kw, real) in enumerate(scopes):
+    for j, (pnames, locs, kw, real, inames, clk, real_full) in enumerate(scopes):
         model = [x[1] if isinstance(x, tuple) else x for x in out['n%d' % j]]
         if model != real:
             ctx.violation({'what': 'Model/Naming.v disagrees with the real getWireNames/getPortName (correspondence broken)', 'ports': pnames, 'locals': locs,
                            'impl': real, 'model': model}, found_input=False)
             return
+        modelf = [x[1] if isinstance(x, tuple) else x for x in out['f%d' % j]]
+        if modelf != real_full:
+            ctx.violation({'what': 'Model/Naming.v emitted_names_full disagrees with the real getClockPortName / getWireNames / getInstanceName (correspondence broken)',
+                           'ports': pnames, 'locals': locs, 'instances': inames, 'clock': clk, 'impl': real_full, 'model': modelf}, found_input=False)
+            return
     ctx.notes['naming_scopes_compared'] = len(scopes)
-    if scopes: ctx.sample({'naming_scope': {'ports': scopes[0][0], 'locals': scopes[0][1], 'emitted': scopes[0][3]}})
+    if scopes: ctx.sample({'naming_scope': {'ports': scopes[0][0], 'locals': scopes[0][1], 'instances': scopes[0][4], 'clock': scopes[0][5], 'emitted': scopes[0][6]}})
 
 
 # ------------------------------------------------------------------------------------------------ the stream
